@@ -43,7 +43,7 @@ the later requests on the same `RequestCtx`, compares every captured value with 
 sketched above -- every step is deterministic, so the prescribed observation is simply "unchanged". Fixed: `c9b6730` (binders), `c2dc3cb`
 (`Params`). After the seeded changes the specification gained a `working` phase: `Churn` steps stand for the handler using helpers that write to
 the context's scratch buffers (`Links`, `String`, `Attachment`, `GetRouteURL`) and `StableInHandler` requires the values taken before to
-read the same at the end of the handler (`MC_Immutable_scratch.cfg`, an accessor backed by scratch memory, must fail); `Range().Type` joined the accessors. False alarm corrected: `Host` is lower-cased by fasthttp in place; the comparison is against the value as first read. Fifth batch: shape `unmatched` (a request no route matches is captured in the application's error handler, accessor `routepath` = `Route().Path`), `SendFile` among the churn steps, and every scenario runs on a connection whose buffers have grown (a long target was served on it before)."""
+read the same at the end of the handler (`MC_Immutable_scratch.cfg`, an accessor backed by scratch memory, must fail); `Range().Type` joined the accessors. False alarm corrected: `Host` is lower-cased by fasthttp in place; the comparison is against the value as first read. Fifth batch: shape `unmatched` (a request no route matches is captured in the application's error handler, accessor `routepath` = `Route().Path`), `SendFile` among the churn steps, and every scenario runs on a connection whose buffers have grown (a long target was served on it before). Session 4: shapes `forwarded` and `forwardedlist` (the peer is a trusted proxy; `X-Forwarded-Proto/-Host/-For` single- or list-valued, written in front of the Cookie header because fasthttp moves the cookie slot to the end on first use and the slots behind it would be reallocated instead of overwritten by the reuse requests); accessors `scheme` and `ips` joined `Accessors`; host, base URL and sub-domains are then the forwarded ones."""
 ASBUILT["C07"] = """**As built (level: exploration).** `spec/Wire.tla`: `Read1 -> Reject(st) | Dispatch(st, helper, arg) -> Second`, `Status(class)` the set of statuses a
 request class may be answered with, `Closing(st)` the connection fate as a function of the status, invariant `NoResponseAfterMalformed`; 14
 request classes x 16 helpers x 8 argument classes (CR, LF, CRLF + header line, CRLFCRLF + body, NUL, 6 KB, non-ASCII + CRLF, plain) x 5
@@ -70,7 +70,7 @@ ASBUILT["C09"] = """**As built.** `spec/Negotiation.tla` (`Pick`, `FormatOutcome
 header; `Accepts` twice on a pooled context, `Format`). Token lists (`AcceptsCharsets/Encodings/Languages`) are enumerated as ranges with an empty subtype over three tokens that are no prefixes of
 one another. Bounds are explicit constants: quick 2 ranges x 2 offers (75 k cases), thorough 3 x 2 and a wider q / parameter pool 2 x 3 (3.3 M
 cases, 7 min; the first thorough configuration, 3 x 3 over the wide pool, was 87 M cases and was abandoned after 7 GB of output). False alarms corrected: `Format`'s 406 is a status, not an error; with an absent
-`Accept` the default handler of `Format` is not asserted. Later additions: an offer-only token that begins with the letters of a range's token without being it (`utf-16le` / `gzip2` / `eng`: a range names one token) and empty list elements (`a,, b`)."""
+`Accept` the default handler of `Format` is not asserted. Later additions: an offer-only token that begins with the letters of a range's token without being it (`utf-16le` / `gzip2` / `eng`: a range names one token) and empty list elements (`a,, b`). Session 4: a fifth spelling for the token headers, the long list -- sixteen non-serving ranges with interleaved qualities around and between the case's ranges (up to 19 ranges), which leaves the expected pick unchanged and exercises the ordering code beyond the lengths for which library sorts are stable."""
 ASBUILT["C10"] = """**As built.** `spec/TrustProxy.tla` (`Trusted`, output functions, `NonInterference`, `SecureIffHttps`, `ValidatedIPIsAnAddress`), `harness/c10_test.go` with
 `fakeConn`/`fakeTLSConn` supplying peer address and TLS state (IPv4 peers in 4-byte and 16-byte form), forwarded scheme values other than
 `https` (`ftp`, upper case), and a sibling application derived from `app.Config()` created before any request (outputs must not depend on
@@ -122,7 +122,7 @@ fields" rule, what arrives per key / per file); drivers `c18asm_test.go`, `c18bo
 repository's own `Test_CookieJarGet` asserts the reversed path test. Harness errors corrected: a double `resp.Close()` put one Response
 into the pool twice; the identity of a pooled `*Request` is unreliable, so requests are mapped through the goroutine id at the second hook. `ClientKV.tla` (added with the fourth batch of seeded changes): every sequence of <= 3 `Add` / `Set` / plural / `Del` calls on headers, query parameters and form fields, on request and client; what arrives is per key what the calls leave behind (`SetOverrides`). It found `6d15e73` at once (`Set*` replaced only the first of several values) and the open finding `C18-set-reorders-other-values`. `ClientAssemble.tla` got the request's own context deadline (`CtxKinds`, `Cut`): a later deadline does not extend the timeout, and a request cut off long before the reply can arrive must end with an error (1.5 s endpoint, 30 ms timeout: no timing race)."""
 ASBUILT["C19"] = """**As built.** `spec/Cors.tla` (`Scope` constant), `harness/c19_test.go`; all cases are served on one recycled `RequestCtx`, as on a keep-alive connection, so a header left behind by the previous
-response would show. 25 k cases, 7-9 s. No defect found. Fifth batch: configuration `blank` (the origin list is set but names nothing: the constructor may refuse it; if it does not, nothing is permitted)."""
+response would show. 25 k cases, 7-9 s. No defect found. Fifth batch: configuration `blank` (the origin list is set but names nothing: the constructor may refuse it; if it does not, nothing is permitted). Session 4: `Cors.tla` spells the configuration's list entries four ways (`Spellings`: as serialized, trailing slash, upper case, blanks around) with the invariant `SpellingIrrelevant`, adds the method `POST` (`OnlyOptionsIsPreflight`) and a negative max-age (header `0`); quick 132,876 states / 130,572 cases. The blanks spelling found the defect fixed by `a85c266`."""
 ASBUILT["C20"] = """**As built.** `spec/EncryptCookie.tla`, `harness/c20_test.go`. 5.6 k symbolic scenarios expanded to every byte / length of real ciphertexts; the first handler may fail after setting its cookies (`outcome`), and `TestC20Conc` performs the
 first step from 8 clients at once on one middleware instance. No defect
 found. False alarm corrected: the binary value class is restricted to bytes a cookie value can carry. Fifth batch: value classes `huge` (4 000 bytes: the ciphertext exceeds 4 KiB) and `issued` (the text is itself a ciphertext the server issued under the current key -- still just a text)."""
